@@ -142,7 +142,25 @@ class Ctx:
             self.rng(t, 0, None)
             return atom(t)
         if op in ("len_iter",):
+            first = t.id not in self.seen
             self.rng(t, 0, 2 ** (self.usize_bits - 1) - 1)
+            if first:
+                # an iterator yields at most as many items as each of its sources holds
+                stack = [t.args[0]]
+                while stack:
+                    it = stack.pop()
+                    if not is_t(it):
+                        continue
+                    if it.op == "zipped":
+                        stack.extend(it.args[:2])
+                    elif it.op in ("mapped", "filtered", "cloned_iter", "adapted", "enumerated"):
+                        stack.append(it.args[0])
+                    elif it.op == "iter":
+                        src = it.args[0]
+                        if src.op == "agg" and src.args[0] == "array":
+                            self.side.append(atom(t).add(Lin(len(src.args) - 1), -1))
+                        else:
+                            self.side.append(atom(t).add(self.lin(mk("len", src)), -1))
             return atom(t)
         if op == "field" or op == "payload" or op == "param" or op == "phi" or op == "index" or op == "deref":
             return atom(t)
@@ -201,6 +219,13 @@ class Ctx:
                 e = self.lin(t.args[0])
                 self.side.append(e.add(Lin(r[1]), -1))
                 self.side.append(Lin(r[0]).add(e, -1))
+        if op == "fits" and v == 0:
+            # does not fit an unsigned target: for a value known to be >= 0 that means value >= max + 1
+            r = int_range(t.args[1], self.usize_bits)
+            if r and r[0] == 0:
+                e = self.lin(t.args[0])
+                if infeasible(self.side + [e.add(Lin(1))]):        # e >= 0 entailed by what is known so far
+                    self.side.append(Lin(r[1] + 1).add(e, -1))
 
     def constraints(self):
         out = list(self.side)
